@@ -102,6 +102,15 @@ func containsToken(t, tok string) bool {
 // The trigger (elem arr k) then has a bare variable as index, which E-matching finds whatever
 // normal form the arithmetic around it takes.
 func absIndexRewrite(body, bv string) (string, bool) {
+	// element references decide which slice is re-indexed; without any (a quantifier over a slice
+	// of plain values, `forallx`) every relative index does
+	if out, ok := absIndexRewriteSel(body, bv, true); ok {
+		return out, true
+	}
+	return absIndexRewriteSel(body, bv, false)
+}
+
+func absIndexRewriteSel(body, bv string, elemOnly bool) (string, bool) {
 	pre := "(+ (s_off "
 	var slice string
 	n := 0
@@ -137,7 +146,7 @@ func absIndexRewrite(body, bv string) (string, bool) {
 		s := body[start:j]
 		rest := body[j:]
 		want := ") " + bv + ")"
-		if strings.HasPrefix(rest, want) && insideElem(body, p) {
+		if strings.HasPrefix(rest, want) && (!elemOnly || insideElem(body, p)) {
 			// (only element references matter: a read of a slice of plain values next to them,
 			// such as result[i] in `result[i] == t.variants[i].tType`, simply gets i := k - off)
 			if slice == "" {
